@@ -218,6 +218,16 @@ def load(code):
     return None
 
 
+def canonical(code):
+    """program bytes with the map descriptors masked (their numbers depend
+    on what else the worker process has open)"""
+    out = bytearray(code)
+    for i in range(0, len(out), 8):
+        if out[i] == 0x18 and out[i + 1] >> 4 == 1:
+            out[i + 4:i + 8] = bytes(4)
+    return bytes(out)
+
+
 _stored = {}
 KEEP = 2
 
@@ -236,7 +246,7 @@ def judge(res, family, shape, code, outside=None, triggers=()):
         res.count("outside:" + outside)
         res.outcomes.add(("outside", outside, verdict is None))
         return verdict
-    res.nontrivial.add(hashlib.sha1(code).hexdigest()[:12])
+    res.nontrivial.add(hashlib.sha1(canonical(code)).hexdigest()[:12])
     if len(res.samples) < 2:
         res.sample(dict(family=family, shape=shape, insns=len(code) // 8,
                         kernel="accepted" if verdict is None
@@ -434,8 +444,7 @@ DEFECTS = {
               {"BPF_ATOMIC stores into RN pkt is not allowed"}, None),
     # r0 holds whatever the program (or the generator, as a temporary) put
     # there before the hash-map variable was read
-    KF_R0: ("hash-read", {SCALAR, "RN invalid mem access 'pkt_end'",
-                          "invalid bpf_context access off=N size=N"},
+    KF_R0: ("hash-read", {SCALAR, "RN invalid mem access 'pkt_end'"},
             seam_r0),
     KF_DICT: ("dict-call", {SCALAR}, seam_park),
     KF_REOWN: ("helper-restore",
